@@ -421,6 +421,9 @@ func Main(args []string) int {
 			exploreEsm(lg, *seed, *depth+3, *maxNodes/3, false)
 		}
 	}
+	if *runs > 0 {
+		fmt.Printf("harbor: scripted scenarios=%d\n", scenarios(lg, *seed))
+	}
 	if *sweepFile != "" {
 		n, err := sweepReplay(lg, *sweepFile, *sweepMax, *seed)
 		if err != nil {
